@@ -344,6 +344,11 @@ def val_lt(a, b, signed=False):
         return seq_lt(a.f, b.f)
     if isinstance(a, (RVec, SliceView)):
         return seq_lt(a.items, b.items)
+    if isinstance(a, RMap) and isinstance(b, RMap):
+        # BTreeSet / BTreeMap order: lexicographic over the elements in key order
+        if a.is_set:
+            return seq_lt([e[0] for e in a.entries], [e[0] for e in b.entries])
+        return seq_lt([Agg([e[0], e[1]]) for e in a.entries], [Agg([e[0], e[1]]) for e in b.entries])
     if isinstance(a, Enum):
         if a.discr != b.discr:
             return a.discr < b.discr
